@@ -4,37 +4,67 @@ Model of the iteration skeleton shared by `WassersteinDistanceNewton._solve` and
 `try / except Exception: warn; break`, a `break` when `iter > 1` and the stopping criteria hold, and the
 `info["converged"]` / returned distance / returned solution computed afterwards.
 
-The body is abstracted to the *event* it produces; iterates are numbered: iterate 0 is the initial Darcy
-solution, iterate `i+1` is the result of the `i`-th successful pass through the loop body.
+The try body is a list of *statements in source order* (extracted from the AST into
+`DarsiaGen.SolveLoopGen`); each statement carries a label (which call it is: assembling, regularisation
+update, inner linear solve, shrink, Anderson mixing, distance evaluation, history / timings, stopping
+criteria, commit of the Bregman variables) and its effect on the two variables that are returned: it may
+overwrite the iterate (`solution_i` / `flux`) or the distance (`new_distance`). An exception can be raised at
+ANY statement (`Event.fail branch at`): the statements before it have taken effect, then the handler runs.
+Bregman has two alternative bodies (regularisation update / relaxation step): `branch` selects one.
 
-Two shapes of the code are modelled (which one the running code has is *generated* from its AST,
-`DarsiaGen.SolveLoopGen`):
-* `asFound`  : `new_distance = 0` before the loop; the handler only breaks; `converged = iter < num_iter - 1`;
-* `repaired` : distance initialised with the cost of iterate 0; the handler restores the last valid iterate
-               and its distance; `converged` is a flag set only on the criteria `break`.
-Core Lean only.
+Iterates are numbered: iterate 0 is the initial Darcy solution, iterate `i+1` is the result of the `i`-th
+successful pass through the loop body. Core Lean only.
 -/
 import DarsiaModel.Basic
 namespace Darsia.SolveLoop
 open Darsia
 
-/-- what one pass through the loop body does -/
-inductive Event
-  | ok (criteriaMet : Bool)   -- body completes; the numeric stopping criteria evaluate to `criteriaMet`
-  | failBeforeUpdate          -- exception before the iterate is touched (inner linear solve fails)
-  | failAfterUpdate           -- exception after the iterate was updated, before its distance is stored
-  | nan                       -- Bregman only: distance of the new iterate is NaN → early `return`
+inductive Label
+  | assemble | regularisation | linearSolve | shrink | anderson | distance | nanCheck | history | timings
+  | criteria | commit | setSolution | setDistance | other
   deriving DecidableEq, Repr
 
-def Event.isFail : Event → Bool
-  | .failBeforeUpdate | .failAfterUpdate => true
-  | _ => false
+inductive Effect | none | writeSol | writeDist | criteria
+  deriving DecidableEq, Repr
 
-inductive Shape | asFound | repaired | unknown
+structure Stmt where
+  label : Label
+  effect : Effect
   deriving DecidableEq, Repr
 
 inductive Method | newton | bregman
   deriving DecidableEq, Repr
+
+/-- what the AST extraction records about one `_solve` method -/
+structure LoopCode where
+  /-- alternative try bodies (statements in source order) -/
+  bodies : List (List Stmt)
+  /-- the handler re-binds the iterate to the copy saved before the `try` -/
+  restoreSol : Bool
+  /-- the handler re-binds the distance to the value saved before the `try` -/
+  restoreDist : Bool
+  /-- `converged` is a flag set only next to the criteria `break` (otherwise `iter < num_iter - 1`) -/
+  flagOnBreak : Bool
+  /-- `new_distance` is initialised with the cost of the initial iterate (otherwise the literal 0) -/
+  distInit : Bool
+  /-- the loop variable is bound before the loop -/
+  iterInit : Bool
+  deriving DecidableEq, Repr
+
+/-- the shape the positive theorems need -/
+def LoopCode.sound (c : LoopCode) : Bool :=
+  c.restoreSol && c.restoreDist && c.flagOnBreak && c.distInit && c.iterInit
+
+/-- what one pass through the loop body does -/
+inductive Event
+  | ok (criteriaMet : Bool)     -- body completes; the numeric stopping criteria evaluate to `criteriaMet`
+  | fail (branch pos : Nat)     -- exception raised by statement number `pos` of body `branch`
+  | nan                         -- Bregman only: distance of the new iterate is NaN → early `return`
+  deriving DecidableEq, Repr
+
+def Event.isFail : Event → Bool
+  | .fail _ _ => true
+  | _ => false
 
 structure LoopState where
   /-- value of the loop variable after the loop (`none`: never bound) -/
@@ -48,31 +78,37 @@ structure LoopState where
   stopped : Bool
   deriving DecidableEq, Repr
 
-def init (shape : Shape) (m : Method) : LoopState :=
-  { iter := (match m with | .bregman => some 0 | .newton => if shape = .repaired then some 0 else none),
-    distTag := if shape = .repaired then some 0 else none,
+def init (c : LoopCode) : LoopState :=
+  { iter := if c.iterInit then some 0 else none,
+    distTag := if c.distInit then some 0 else none,
     solTag := 0, flag := false, stopped := false }
 
+/-- effects of the statements executed before statement `pos` of body `branch` -/
+def executed (c : LoopCode) (branch pos : Nat) : List Effect :=
+  ((c.bodies.getD branch []).take pos).map (·.effect)
+
 /-- one pass of the loop body at loop index `i` -/
-def step (shape : Shape) (s : LoopState) (i : Nat) (e : Event) : LoopState :=
+def step (c : LoopCode) (s : LoopState) (i : Nat) (e : Event) : LoopState :=
   let s := { s with iter := some i }
   match e with
   | .ok met =>
     let s := { s with distTag := some (i + 1), solTag := i + 1 }
     if 1 < i ∧ met then { s with flag := true, stopped := true } else s
   | .nan => { s with distTag := some (i + 1), solTag := i + 1, stopped := true }
-  | .failBeforeUpdate => { s with stopped := true }
-  | .failAfterUpdate =>
-    if shape = .repaired then { s with stopped := true }   -- handler restores the last valid iterate
-    else { s with solTag := i + 1, stopped := true }         -- iterate already overwritten, distance stale
+  | .fail b a =>
+    let pre := executed c b a
+    -- the iterate / the distance were already overwritten and the handler does not restore them
+    let s := if pre.contains .writeSol ∧ c.restoreSol = false then { s with solTag := i + 1 } else s
+    let s := if pre.contains .writeDist ∧ c.restoreDist = false then { s with distTag := some (i + 1) } else s
+    { s with stopped := true }
 
 /-- the `for` loop: indices `i, i+1, …` while fuel (= remaining `range`) lasts and no `break` -/
-def runFrom (shape : Shape) (env : Nat → Event) : Nat → Nat → LoopState → LoopState
+def runFrom (c : LoopCode) (env : Nat → Event) : Nat → Nat → LoopState → LoopState
   | 0, _, s => s
-  | fuel + 1, i, s => if s.stopped then s else runFrom shape env fuel (i + 1) (step shape s i (env i))
+  | fuel + 1, i, s => if s.stopped then s else runFrom c env fuel (i + 1) (step c s i (env i))
 
-def run (shape : Shape) (m : Method) (numIter : Nat) (env : Nat → Event) : LoopState :=
-  runFrom shape env numIter 0 (init shape m)
+def run (c : LoopCode) (numIter : Nat) (env : Nat → Event) : LoopState :=
+  runFrom c env numIter 0 (init c)
 
 /-- the early `return` of the NaN branch reports `converged = False` literally -/
 def endedByNan (env : Nat → Event) (s : LoopState) : Bool :=
@@ -81,18 +117,37 @@ def endedByNan (env : Nat → Event) (s : LoopState) : Bool :=
   | none => false
 
 /-- `info["converged"]` (`.error .unbound`: `iter` never bound — Newton as found with `num_iter = 0`) -/
-def converged (shape : Shape) (numIter : Nat) (env : Nat → Event) (s : LoopState) : Except Err Bool :=
+def converged (c : LoopCode) (numIter : Nat) (env : Nat → Event) (s : LoopState) : Except Err Bool :=
   if endedByNan env s then .ok false else
-  match shape with
-  | .repaired => .ok s.flag
-  | _ => match s.iter with
-    | none => .error .unbound
-    | some i => .ok (decide ((i : Int) < (numIter : Int) - 1))
+  if c.flagOnBreak then .ok s.flag else
+  match s.iter with
+  | none => .error .unbound
+  | some i => .ok (decide ((i : Int) < (numIter : Int) - 1))
 
 /-- the environment given by a finite list (missing entries: body completes, criteria not met) -/
 def envOf (es : List Event) (i : Nat) : Event := es.getD i (.ok false)
 
-/-- index of the last pass that was executed -/
-def LoopState.lastIndex (s : LoopState) : Nat := s.iter.getD 0
+/-- first statement with a given label in a body (`body.length` when absent) -/
+def labelIndex (c : LoopCode) (branch : Nat) (l : Label) : Nat :=
+  ((c.bodies.getD branch []).map (·.label)).idxOf l
+
+/-- the two methods as they were found (before the `fix:` commit), for the negative witnesses -/
+def asFoundNewton : LoopCode :=
+  { bodies := [[⟨.assemble, .none⟩, ⟨.linearSolve, .none⟩, ⟨.setSolution, .writeSol⟩, ⟨.anderson, .writeSol⟩,
+                ⟨.distance, .writeDist⟩, ⟨.history, .none⟩, ⟨.timings, .none⟩, ⟨.criteria, .criteria⟩]],
+    restoreSol := false, restoreDist := false, flagOnBreak := false, distInit := false, iterInit := false }
+
+def asFoundBregman : LoopCode :=
+  { bodies := [[⟨.regularisation, .none⟩, ⟨.linearSolve, .writeSol⟩, ⟨.shrink, .none⟩, ⟨.anderson, .none⟩,
+                ⟨.distance, .writeDist⟩, ⟨.nanCheck, .none⟩, ⟨.history, .none⟩, ⟨.timings, .none⟩,
+                ⟨.criteria, .criteria⟩, ⟨.commit, .none⟩],
+               [⟨.linearSolve, .writeSol⟩, ⟨.shrink, .none⟩, ⟨.anderson, .none⟩,
+                ⟨.distance, .writeDist⟩, ⟨.nanCheck, .none⟩, ⟨.history, .none⟩, ⟨.timings, .none⟩,
+                ⟨.criteria, .criteria⟩, ⟨.commit, .none⟩]],
+    restoreSol := false, restoreDist := false, flagOnBreak := false, distInit := false, iterInit := true }
+
+/-- the Newton body with the repaired handler / flag / initialisations (for non-vacuity examples) -/
+def repairedNewton : LoopCode :=
+  { asFoundNewton with restoreSol := true, restoreDist := true, flagOnBreak := true, distInit := true, iterInit := true }
 
 end Darsia.SolveLoop
